@@ -27,6 +27,17 @@ fn main() {
         std::process::exit(2);
     }
 
+    // tools/coverage.sh only: instrumented builds are ~20x slower, so the coverage diagnostic gives every
+    // monitor a fixed time slice; exit(0) (not a signal) so that the profile runtime flushes its counters.
+    // Never set by ./check: a registered check always runs its whole budget.
+    if let Some(secs) = std::env::var("VERIF_COV_SECONDS").ok().and_then(|s| s.parse::<u64>().ok()) {
+        std::thread::spawn(move || {
+            std::thread::sleep(std::time::Duration::from_secs(secs));
+            eprintln!("coverage time slice of {secs}s used up: exiting (no verdict, no evidence)");
+            std::process::exit(0);
+        });
+    }
+
     let property = args[1].to_uppercase();
     let mut tier = match std::env::var("VERIF_TIER").as_deref() {
         Ok("thorough") => Tier::Thorough,
